@@ -11,9 +11,12 @@ Pal == [n |-> <<1000, 3500>>, m |-> <<4000, 9000>>, s |-> <<0, 1500>>, a |-> <<5
         O |-> <<"stream">>, o |-> <<"regions">>, j |-> <<0, 2500>>,
         C |-> <<"consume">>, E |-> <<TRUE>>, G |-> <<"debug">>, D |-> <<TRUE>>, T |-> <<"raw">>, P |-> <<"image">>, I |-> <<2>>, F |-> <<256>>]
 VARIABLES o
+\* -R only changes the output when a remainder shorter than -n follows a cut at -m: with the synthetic audio that needs -s 0 or -d as well
+\* (seeded change C15_7), so these triples are part of every tier
+StrictTriples == {{"R", "m", "s"}, {"R", "m", "d"}, {"R", "m", "n"}}
 \* C15: the listed options only; X04: at least one side-effect option among them
 Subsets == IF WithFx THEN {S \in SUBSET (OptNames \cup FxNames) : Cardinality(S) <= MaxPresent /\ S \cap FxNames # {}}
-           ELSE {S \in SUBSET OptNames : Cardinality(S) <= MaxPresent}
+           ELSE {S \in SUBSET OptNames : Cardinality(S) <= MaxPresent} \cup StrictTriples
 Init == \E S \in Subsets : \E ix \in [S -> 1..3] : (\A k \in S : ix[k] <= Len(Pal[k])) /\ o = [k \in S |-> Pal[k][ix[k]]]
 Next == UNCHANGED o
 Spec == Init /\ [][Next]_o
